@@ -41,6 +41,8 @@ Fixpoint lstrip (l : bytes) : bytes := match l with c :: l' => if is_ws c then l
 Definition strip (l : bytes) : bytes := rev (lstrip (rev (lstrip l))).
 Fixpoint lstrip_cr (l : bytes) : bytes := match l with c :: l' => if c =? 13 then lstrip_cr l' else l | [] => [] end.
 Definition rstrip_cr (l : bytes) : bytes := rev (lstrip_cr (rev l)).
+(* bytes.endswith(b"\r") *)
+Definition ends_cr (l : bytes) : bool := match rev l with c :: _ => c =? 13 | [] => false end.
 
 Definition hexval (c : N) : option N :=
   if (48 <=? c) && (c <=? 57) then Some (c - 48)
@@ -443,6 +445,8 @@ Section Sys.
   Definition blk_eof (s : st) (chunk : bytes) : bres :=
     match cst (pa s) with
     | CChunkEof =>
+      (* lax: a lone CR is kept for the next read (4127650), `_paused = False; return NEEDS_INPUT` *)
+      if c_lax (cf s) && list_eqb chunk [13] then BRet (upd_pa s (fun q => pa_paused (pa_tail q chunk) false)) PNeeds else
       let chunk1 := if c_lax (cf s) && starts_with [13] chunk then drop 1 chunk else chunk in
       let sp := sep s in
       if list_eqb (take (lenN sp) chunk1) sp then BNext (upd_pa s (fun q => pa_cst q CSize)) (drop (lenN sp) chunk1)
@@ -462,7 +466,9 @@ Section Sys.
         let line0 := take pos chunk in
         let chunk1 := drop (pos + lenN (sep s)) chunk in
         let line := if c_lax (cf s) then rstrip_cr line0 else line0 in
-        if c_maxfield (cf s) <? lenN line then BRet s (PRaise ELineTooLong) else
+        (* line_len: one CR of the terminator does not count, further trailing CRs do (0473a42) *)
+        let line_len := if c_lax (cf s) && ends_cr line0 then lenN line0 - 1 else lenN line0 in
+        if c_maxfield (cf s) <? line_len then BRet s (PRaise ELineTooLong) else
         let n := ntrailers (pa s) + 1 in
         let s1 := upd_pa s (fun q => pa_trailers q n (bad_trailer q || negb (isnil line))) in
         if c_maxtrailers (cf s) <? n then BRet s1 (PRaise EBadMessage)
@@ -503,7 +509,9 @@ Section Sys.
   Definition chunked_feed (fuel : nat) (s : st) (chunk0 : bytes) : st * pres :=
     let tl := ctail (pa s) in
     let limit := match cst (pa s) with CTrailers => c_maxfield (cf s) | _ => c_maxline (cf s) end in
-    let too_long := negb (isnil tl) && match cst (pa s) with CChunk => false | _ => limit <? lenN tl end in
+    (* tail_len: a CR ending the buffered part may belong to the terminator; a lax chunk-size line keeps it (0473a42, 4127650) *)
+    let tail_len := if (negb (c_lax (cf s)) || match cst (pa s) with CSize => false | _ => true end) && ends_cr tl then lenN tl - 1 else lenN tl in
+    let too_long := negb (isnil tl) && match cst (pa s) with CChunk => false | _ => limit <? tail_len end in
     if too_long then (s, PRaise ELineTooLong) else
     chunk_loop fuel (upd_pa s (fun q => pa_tail q [])) (tl ++ chunk0).
 
